@@ -244,6 +244,9 @@ class Checker:
                     if pe.tag in context:
                         if value != context[pe.tag]:
                             continue
+                        # The tag is carried over from the packet name: constraints still apply
+                        if not self._check_cons(value, context, pe.cons_sets):
+                            continue
                         matches.append(-1)
                     else:
                         if not self._check_cons(value, context, pe.cons_sets):
